@@ -1,8 +1,25 @@
 // C04 — libFuzzer target: the first CFG_LEN bytes select the rule set / encoding / method / replacement character, the rest
-// is the text.  The oracle (c04_oracle.h) runs inside the target; a failure saves the input and leaves with _exit(99).
+// is the text (with an optional structured expansion of numeric character references, see expand()).  The oracle (c04_oracle.h) runs inside the target; a failure saves the input and leaves with _exit(99).
 // Running the binary with a file argument replays that input (libFuzzer's own single-input mode).
 #include "vfuzz.h"
 #include "c04_oracle.h"
+
+// Structured part of the decoder (only when bit 7 of the first configuration byte is set; that bit has no other meaning): the byte
+// 0x1D followed by 5 bytes (form, zeros, value class, code point selector, aux) expands to a numeric character reference built by
+// c04::make_numeric_ref — so the fuzzer reaches k*2^32+cp, k*2^64+cp, word-size edges and 20..40 digit numbers with leading zeros
+// without having to assemble them digit by digit.  Everything else stays raw bytes.
+static std::string expand(std::string const &t) {
+    std::string r;
+    for (size_t i = 0; i < t.size(); i++) {
+        if ((unsigned char)t[i] != 0x1D || i + 5 >= t.size()) { r += t[i]; continue; }
+        unsigned form = (unsigned char)t[i + 1], z = (unsigned char)t[i + 2], vc = (unsigned char)t[i + 3], cs = (unsigned char)t[i + 4], aux = (unsigned char)t[i + 5];
+        unsigned zeros = (z & 15) < 11 ? c04::NUM_ZEROS[z & 15] : (z >> 2);
+        unsigned long cp = (cs & 0x80) ? ((unsigned long)(cs & 0x7F) * 8713u + aux * 31u) % 0x110000 : c04::NUM_CPS[cs % c04::N_NUM_CPS];
+        r += c04::make_numeric_ref(form, zeros, vc, cp, aux * 257u + cs);
+        i += 5;
+    }
+    return r;
+}
 
 static void push_counters() { c04::counters().push(); }
 
@@ -15,6 +32,7 @@ extern "C" int LLVMFuzzerTestOneInput(const uint8_t *data, size_t size) {
     std::string all((const char *)data, size);
     std::string cfg = all.substr(0, c04::CFG_LEN);
     std::string text = size > c04::CFG_LEN ? all.substr(c04::CFG_LEN) : std::string();
+    if (size > 0 && (data[0] & 0x80)) text = expand(text);
     c04::Verdict v;
     try { v = c04::check_case(cfg, text); }
     catch (std::exception const &e) { v = c04::bad("exception:c04", std::string("unexpected exception from the xss API: ") + e.what()); }
